@@ -107,6 +107,10 @@ func (v DenseInt8Vector) ReverseOrder() {
   }
 }
 func (v DenseInt8Vector) Slice(i, j int) Vector {
+  // do not expose elements beyond the end of a sub-slice
+  if j > len(v) {
+    panic("index out of bounds")
+  }
   return v[i:j]
 }
 func (v DenseInt8Vector) Swap(i, j int) {
@@ -160,6 +164,9 @@ func (v DenseInt8Vector) ConstAt(i int) ConstScalar {
   return Int8{&v[i]}
 }
 func (v DenseInt8Vector) ConstSlice(i, j int) ConstVector {
+  if j > len(v) {
+    panic("index out of bounds")
+  }
   return v[i:j]
 }
 func (v DenseInt8Vector) AsConstMatrix(n, m int) ConstMatrix {
